@@ -65,11 +65,11 @@ Fixpoint er (v : value) {struct v} : value :=
   end.
 
 Lemma er_list (l : list value) : er (VList l) = VList (map er l).
-Proof. cbn [er]. f_equal. induction l as [|a r IH]; [reflexivity|]. cbn [map]. f_equal. exact IH. Qed.
+Proof. reflexivity. Qed.
 Lemma er_tuple (l : list value) : er (VTuple l) = VTuple (map er l).
-Proof. cbn [er]. f_equal. induction l as [|a r IH]; [reflexivity|]. cbn [map]. f_equal. exact IH. Qed.
+Proof. reflexivity. Qed.
 Lemma er_dict (k l : list value) : er (VDict k l) = VDict k (map er l).
-Proof. cbn [er]. f_equal. induction l as [|a r IH]; [reflexivity|]. cbn [map]. f_equal. exact IH. Qed.
+Proof. reflexivity. Qed.
 
 Lemma value_ind_l (P : value -> Prop) :
   (forall v, match v with VList _ | VTuple _ | VDict _ _ => False | _ => True end -> P v) ->
